@@ -18,6 +18,16 @@
 // fixed number of times, every repetition in a process of its own (runIsolated)
 // under alternating runtime settings; a process that dies is a violation.
 //
+// Sizes straddle every buffer boundary on the path: the 4 KiB bufio writers,
+// the 32 KiB io.Copy chunk, the 64 KiB capacity of the `output:` capture pipe
+// (and of os/exec's pipe), 128 KiB (one pipe capacity queued behind another;
+// MAX_ARG_STRLEN), 160 KiB (64 + 64 + 32), 1 MiB — for EVERY sink configuration
+// {stdout file ±} x {stderr file ±} x {output variable ±}.  A member whose
+// captured `output:` volume exceeds one pipe capacity runs in a process of its
+// own (runIsolated, one execution): Node.Execute exports the captured text
+// into the environment of the process that runs the step, and one environment
+// string of 128 KiB or more makes every later execve of that process fail.
+//
 // Oracle, evaluated after Schedule returned (exactly the property): the file
 // named by the node's final State().Log contains every byte the last attempt
 // wrote to stdout and to stderr (stderr: in the `stderr:` file instead when one
@@ -114,11 +124,12 @@ func (m member) captured() int {
 	return n
 }
 
-// excluded: captured volumes above one pipe capacity belong to C11
-// (C11/output/hang(size>64KiB)); besides, Node.Execute exports the value into the
-// environment of this process, and values above MAX_ARG_STRLEN would make execve
-// fail for the members that run in parallel.
-func (m member) excluded() bool { return m.captured() > pipeCap }
+// bigCapture: the captured volume exceeds one pipe capacity.  Node.Execute
+// exports the captured text into the environment of the process it runs in, and
+// one environment string above MAX_ARG_STRLEN (128 KiB) makes every later execve
+// of that process fail with E2BIG — so such a member is executed in a process of
+// its own (runIsolated) instead of next to the other members of the shard.
+func (m member) bigCapture() bool { return m.captured() > pipeCap }
 
 // want: the bytes attempt a writes to the stream (n = outBytes/errBytes).
 func (m member) want(attempt, stream, n int) []byte {
@@ -155,6 +166,9 @@ func (m member) class() string {
 	}
 	if m.Stream == streamConc {
 		c += "/concurrent"
+	}
+	if m.bigCapture() {
+		c += "/captured>64KiB"
 	}
 	return c
 }
@@ -225,6 +239,8 @@ type outcome struct {
 	sample   map[string]any
 	earlier  bool // the stdout file also held the earlier attempts' bytes
 	rounds   int  // executions of the member (concurrent members are repeated)
+	noExec   bool // the relaunch (retry) could not execve: the environment string of the captured output is too long
+	stateOff bool // the node's final status is not what the last attempt's exit code says (counted, not a verdict)
 }
 
 func emitScript(dir string, failFirst int, concurrent bool) string {
@@ -501,6 +517,23 @@ func runMember(m member, dir string, idx int) (oc outcome) {
 	last := oc.attempts
 	node := g.Nodes()[0]
 	st := node.State()
+	// Only for captured volumes above one pipe capacity, with a retry: the first
+	// attempt's captured text sits in this process's environment (os.Setenv in
+	// Node.Execute); from 128 KiB on the relaunch cannot execve (E2BIG), so the
+	// last attempt never ran and printed nothing — nothing to look for.
+	if m.bigCapture() && m.Retries > 0 && oc.attempts < m.Retries+1 && st.Error != nil &&
+		strings.Contains(st.Error.Error(), syscall.E2BIG.Error()) {
+		oc.noExec = true
+		oc.sample = map[string]any{"member": m.String(), "attempts": oc.attempts, "node_status": st.Status.String(),
+			"node_error": st.Error.Error(), "last_attempt_started": false}
+		return
+	}
+	// informational (counted, no verdict): the final status against the exit code of the last attempt that ran
+	wantStatus := scheduler.NodeStatusSuccess
+	if last <= failFirst {
+		wantStatus = scheduler.NodeStatusError
+	}
+	oc.stateOff = st.Status != wantStatus
 
 	read := func(p string) ([]byte, string) {
 		if p == "" {
@@ -534,8 +567,8 @@ func runMember(m member, dir string, idx int) (oc outcome) {
 			why = fmt.Sprintf("file has %d bytes, %d of them from attempt %d's %s", len(b), len(got), last, streamName[stream])
 		}
 		oc.viol = append(oc.viol, vlib.Violation{Signature: sig,
-			Detail: fmt.Sprintf("%s: attempt %d (the last; node status %q, retryCount %d) wrote %d bytes to %s; the %s %s lacks them from offset %d on (%s)",
-				m, last, st.Status, st.RetryCount, n, streamName[stream], file, filepath.Base(path), at, why),
+			Detail: fmt.Sprintf("%s: attempt %d (the last; node status %q, error %q, retryCount %d) wrote %d bytes to %s; the %s %s lacks them from offset %d on (%s)",
+				m, last, st.Status, fmt.Sprint(st.Error), st.RetryCount, n, streamName[stream], file, filepath.Base(path), at, why),
 			Replay: m})
 	}
 	check("log", st.Log, streamOut, m.outBytes())
@@ -555,6 +588,9 @@ func runMember(m member, dir string, idx int) (oc outcome) {
 	lb, _ := read(st.Log)
 	oc.sample = map[string]any{"member": m.String(), "attempts": oc.attempts, "node_status": st.Status.String(),
 		"log": filepath.Base(st.Log), "log_bytes": len(lb), "violations": len(oc.viol)}
+	if st.Error != nil {
+		oc.sample["node_error"] = st.Error.Error()
+	}
 	return
 }
 
@@ -576,13 +612,16 @@ func killChild(dir string) {
 
 func sizes(thorough bool) []int {
 	if !thorough {
-		return []int{0, 1, 4095, 4096, 4097, 65536}
+		// bufio (4096) and pipe (64 KiB) boundaries; 128 KiB, 200 KiB and 1 MiB: well above one pipe capacity
+		return []int{0, 1, 4095, 4096, 4097, 65536, 65537, 131072, 200 << 10, 1 << 20}
 	}
-	// bufio (4096), io.Copy (32 KiB) and pipe (64 KiB) boundaries, and 1 MiB
-	return []int{0, 1, 2, 4095, 4096, 4097, 8191, 8192, 8193, 32767, 32768, 32769, 65535, 65536, 65537, 131072, 1 << 20}
+	// bufio (4096), io.Copy (32 KiB), pipe (64 KiB), 96 KiB (64 + 32), 128 KiB (two pipe capacities; MAX_ARG_STRLEN),
+	// 160 KiB (64 + 64 + 32), 200 KiB, 256 KiB and 1 MiB boundaries
+	return []int{0, 1, 2, 4095, 4096, 4097, 8191, 8192, 8193, 32767, 32768, 32769, 65535, 65536, 65537,
+		98304, 131071, 131072, 131073, 163840, 163841, 200 << 10, 262144, 1<<20 - 1, 1 << 20, 1<<20 + 1}
 }
 
-func enumerate(thorough bool) (all []member, excluded int) {
+func enumerate(thorough bool) (all []member) {
 	b := []bool{false, true}
 	for _, so := range b {
 		for _, se := range b {
@@ -593,10 +632,6 @@ func enumerate(thorough bool) (all []member, excluded int) {
 							for s := 0; s <= 2; s++ {
 								for _, n := range sizes(thorough) {
 									m := member{StdoutFile: so, StderrFile: se, Output: ov, Script: scr, Retries: r, FinalFail: ff, Stream: s, Size: n}
-									if m.excluded() {
-										excluded++
-										continue
-									}
 									all = append(all, m)
 								}
 							}
@@ -619,10 +654,6 @@ func enumerate(thorough bool) (all []member, excluded int) {
 							}
 							for _, n := range concLines(thorough, ov) {
 								m := member{StdoutFile: so, StderrFile: se, Output: ov, Script: scr, Retries: r, FinalFail: ff, Stream: streamConc, Size: n}
-								if m.excluded() {
-									excluded++
-									continue
-								}
 								all = append(all, m)
 							}
 						}
@@ -635,11 +666,15 @@ func enumerate(thorough bool) (all []member, excluded int) {
 }
 
 // concLines: lines per stream of the concurrent writers. With `output:` the
-// captured volume (both streams, 6 bytes a line) stays below 64 KiB.
+// captured volume is below one pipe capacity with 4000 lines (both streams, 6
+// bytes a line: 48 KiB) and well above it with 20000 (7 bytes a line: 137 KiB
+// with a `stderr:` file, 273 KiB without).
 func concLines(thorough, output bool) []int {
 	switch {
+	case output && thorough:
+		return []int{4000, 20000, 30000}
 	case output:
-		return []int{4000}
+		return []int{4000, 20000}
 	case thorough:
 		return []int{2000, 20000, 30000}
 	}
@@ -661,12 +696,17 @@ type childOut struct {
 	Viol     []vlib.Violation `json:"viol"`
 	CheckErr string           `json:"check_err"`
 	Sample   map[string]any   `json:"sample"`
+	NoExec   bool             `json:"no_exec"`
+	StateOff bool             `json:"state_off"`
 }
 
-// runIsolated executes a concurrent member R times, each time in a process of
-// its own: the data race the mode is after lives in goroutines of os/exec, a
-// panic there (bufio index out of range) cannot be recovered in this process.
-func runIsolated(m member, dir string, idx, R int) (oc outcome) {
+// runIsolated executes a member R times, each time in a process of its own.
+// Concurrent members (vary: alternating runtime settings): the data race the
+// mode is after lives in goroutines of os/exec, a panic there (bufio index out
+// of range) cannot be recovered in this process.  Members with a captured
+// `output:` volume above one pipe capacity (R = 1, default runtime settings):
+// the captured text ends up in the environment of the process that ran the step.
+func runIsolated(m member, dir string, idx, R int, vary bool) (oc outcome) {
 	oc.m = m
 	for r := 0; r < R; r++ {
 		oc.rounds++
@@ -681,10 +721,11 @@ func runIsolated(m member, dir string, idx, R int) (oc outcome) {
 		cmd.Env = append(os.Environ(), "VERIF_C12_CHILD="+of, fmt.Sprintf("VERIF_C12_IDX=%d", idx))
 		// rounds alternate between runtime settings of the process that runs the step:
 		// 1 processor + one busy goroutine, 2 processors + two busy goroutines, all processors idle
-		switch r % 3 {
-		case 0:
+		switch {
+		case !vary:
+		case r%3 == 0:
 			cmd.Env = append(cmd.Env, "GOMAXPROCS=1", "VERIF_C12_SPIN=1")
-		case 1:
+		case r%3 == 1:
 			cmd.Env = append(cmd.Env, "GOMAXPROCS=2", "VERIF_C12_SPIN=2")
 		}
 		cmd.SysProcAttr = &syscall.SysProcAttr{Setpgid: true}
@@ -729,6 +770,7 @@ func runIsolated(m member, dir string, idx, R int) (oc outcome) {
 			return
 		}
 		oc.attempts, oc.sample = co.Attempts, co.Sample
+		oc.noExec, oc.stateOff = co.NoExec, co.StateOff
 		if co.CheckErr != "" {
 			oc.checkErr = co.CheckErr
 			return
@@ -778,7 +820,8 @@ func main() {
 				}
 			}
 			oc := runMember(rp.Replay, fl.Work, idx)
-			b, _ := json.Marshal(childOut{Attempts: oc.attempts, Viol: oc.viol, CheckErr: oc.checkErr, Sample: oc.sample})
+			b, _ := json.Marshal(childOut{Attempts: oc.attempts, Viol: oc.viol, CheckErr: oc.checkErr, Sample: oc.sample,
+				NoExec: oc.noExec, StateOff: oc.stateOff})
 			if err := os.WriteFile(of, b, 0o644); err != nil {
 				fmt.Fprintln(os.Stderr, err)
 				os.Exit(2)
@@ -788,7 +831,7 @@ func main() {
 			return
 		}
 	} else {
-		all, excluded := enumerate(fl.Thorough())
+		all := enumerate(fl.Thorough())
 		for i, m := range all {
 			if fl.Mine(i) {
 				mine = append(mine, m)
@@ -800,7 +843,13 @@ func main() {
 		res.Bounds["concurrent_lines_per_stream"] = map[string]any{"without_output": concLines(fl.Thorough(), false), "with_output": concLines(fl.Thorough(), true)}
 		res.Bounds["concurrent_rounds_per_member"] = rounds(fl.Thorough())
 		res.Bounds["family_members"] = len(all)
-		res.Bounds["excluded_output_capture_gt_64KiB_cited_to_C11"] = excluded
+		big := 0
+		for _, m := range all {
+			if m.bigCapture() {
+				big++
+			}
+		}
+		res.Bounds["members_with_output_capture_gt_64KiB"] = big
 	}
 
 	workers := 4
@@ -821,7 +870,9 @@ func main() {
 					if fl.Replay != "" {
 						R = 5
 					}
-					outs[k] = runIsolated(mine[k], dir, idxs[k], R)
+					outs[k] = runIsolated(mine[k], dir, idxs[k], R, true)
+				} else if mine[k].bigCapture() {
+					outs[k] = runIsolated(mine[k], dir, idxs[k], 1, false)
 				} else {
 					outs[k] = runMember(mine[k], dir, idxs[k])
 					outs[k].rounds = 1
@@ -851,6 +902,18 @@ func main() {
 		}
 		if oc.attempts != 0 && oc.attempts != oc.m.Retries+1 {
 			res.Count("attempts_differ_from_plan", 1)
+		}
+		if oc.m.bigCapture() {
+			res.Count("members_with_output_capture_gt_64KiB", 1)
+		}
+		if oc.noExec {
+			res.Count("relaunch_could_not_exec_E2BIG(captured_output_in_environment)", 1)
+		}
+		if oc.stateOff {
+			res.Count("final_status_differs_from_last_exit_code", 1)
+		}
+		if os.Getenv("VERIF_C12_DEBUG") != "" && (oc.stateOff || oc.noExec || (oc.attempts != 0 && oc.attempts != oc.m.Retries+1)) {
+			fmt.Fprintf(os.Stderr, "debug: %s: attempts=%d noExec=%v stateOff=%v sample=%v\n", oc.m, oc.attempts, oc.noExec, oc.stateOff, oc.sample)
 		}
 		if oc.attempts > 1 {
 			res.Count("members_with_a_relaunched_attempt", 1)
@@ -886,7 +949,7 @@ func main() {
 	res.Rule = "every member of the product is built as a dag.Step and run by the real scheduler.Schedule with a real sh child; distinct = distinct configuration; non-trivial = anything but {no redirect, no output variable, command, no retry}"
 	res.Assume("the step's child writes with cat(1) from prepared pattern files in 4 chunks per stream, alternating stdout/stderr chunks when both streams are used; in the both-concurrent mode two background sh loops print one 6-7-byte line per write(2), one loop per stream, at the same time")
 	res.Assume(fmt.Sprintf("OS-level interleaving inside os/exec (its copy goroutines) is not controlled; every both-concurrent member is repeated %d times, each time in a process of its own, and fails on the first lossy repetition", rounds(fl.Thorough())))
-	res.Assume("configurations whose captured `output:` volume exceeds one pipe capacity (64 KiB) are excluded: that volume is C11's (C11/output/hang(size>64KiB)), and the value is exported into this process's environment")
+	res.Assume("a member whose captured `output:` volume exceeds one pipe capacity (64 KiB) is executed once in a process of its own (Node.Execute exports the captured text into the environment of the process that runs the step); with a retry and 128 KiB or more captured, the relaunch cannot execve (E2BIG): the last attempt then printed nothing and nothing is looked for (counted)")
 	res.Assume("Schedule is given a drained done channel, as the agent does")
 	res.Write(fl.Out)
 	os.Unsetenv("C12_OUT")
